@@ -184,7 +184,7 @@ class Engine:
                     for e in need_ext:
                         if e not in cfg["enable_extensions"]:
                             cfg["enable_extensions"] = sorted(cfg["enable_extensions"] + [e])
-        hazards = gh.apply(g, proj, front_end, g.choice([0, 1, 1, 2, 3]))
+        hazards = gh.apply(g, proj, front_end, g.choice([0, 1, 2, 2, 3, 4]))
         if front_end == "sphinx" and len(proj["docs"]) >= 2 and g.random() < 0.35:
             # an orphan: a document outside every toctree (and so outside the latex/texinfo document tree)
             orphan = g.choice(proj["docs"])
